@@ -6,7 +6,7 @@ CONSTANTS Addrs <- McAddrs
  MaxBlocks = 2
  MaxWrites = 2
  MaxStable = 2
- MaxRestart = 1
+ MaxRestart = 0
  MaxReads = 2
  LeafOnly = TRUE
 INVARIANTS TypeOK ViewIsNearestWrite ForksIsolated PersistEqualsStableView
